@@ -50,8 +50,9 @@ def replay_file(pid, path):
         if r['rc'] != 0:
             print(r['stderr'][-1500:])
     shutil.rmtree(workdir, ignore_errors=True)
-    if failed(res):
-        print('replay: the input fails against the current /repo')
+    compile_fail = rp.get('expect_compiles') and any(r['rc'] != 0 and 'could not compile' in r['stderr'] for r in res.values())
+    if failed(res) or compile_fail:
+        print('replay: the input fails against the current /repo' + (' (the program, which the property promises to compile, is rejected)' if compile_fail else ''))
         return 1
     print('replay: the input does not fail against the current /repo')
     return 0
